@@ -2185,7 +2185,7 @@ pub fn run(ctx: &mut Ctx) {
     // producer threads racing between stamp and send (F10), free-running (thorough tier only:
     // the forced schedules above give the deterministic witness)
     if ctx.thorough() {
-        producer_race(ctx, 2000);
+        producer_race(ctx, 1200);
     }
     // re-created writer, first operation a delete, one merge of committed segments
     for k in 0..ctx.budget(12, 200) {
@@ -2196,7 +2196,7 @@ pub fn run(ctx: &mut Ctx) {
         report_findings(ctx, &case, f);
     }
     // real memory-budget cuts in the middle of run() batches
-    let memcut = ctx.budget(7, 70);
+    let memcut = ctx.budget(7, 49);
     for k in 0..memcut {
         let mut rng = ctx.rng.fork();
         let case = gen_memcut_case(&mut rng, k);
@@ -2206,7 +2206,7 @@ pub fn run(ctx: &mut Ctx) {
         ctx.report.count(if after > before { "memcut:one-segment" } else { "memcut:several-segments" });
         report_findings(ctx, &case, f);
     }
-    let histories = ctx.budget(170, 3500);
+    let histories = ctx.budget(170, 2600);
     for k in 0..histories {
         let mut rng = ctx.rng.fork();
         let profile = match k % 10 { 0..=4 => 0, 5 | 6 => 1, 7 | 8 => 2, _ => 3 };
